@@ -64,6 +64,7 @@ pub fn run_all(ctx: &mut Ctx, stream: &str) {
 			Generic<u8, u16>, Generic<String, TwinU32>, Vec<Mixed>, Option<Named>, Box<Chain>, Vec<Skipper>, BTreeMap<u8, Mixed>,
 			MelEnum, MelGen<u32>, MelGen<u64>, MelGen<u8>, Option<MelEnum>, [MelGen<u16>; 2], (MelEnum, CompactFields), Box<CompactFields>,
 			Compact<Wrapped>, Box<Transparent>, [Transparent; 2], UnitStruct,
+			TransTagged, Box<TransTagged>, [TransTagged; 2], TransTaggedAs, Box<TransTaggedAs>, TransSkipPayload, Box<TransSkipPayload>, [TransSkipPayload; 2],
 			GenEnum<u16, NotCodec, u32>, GenEnum<Vec<u8>, NotCodec, u64>, GenEnum<TwinU32, u8, u8>, Vec<GenEnum<bool, NotCodec, u16>>,
 			GenStruct<u32, NotCodec>, GenStruct<String, u8>,
 			TransCompact, Box<TransCompact>, [TransCompact; 2], Rc<TransCompact>, Vec<Box<[TransCompact; 2]>>, Arc<TransCompact>,
@@ -111,6 +112,9 @@ pub fn run_all(ctx: &mut Ctx, stream: &str) {
 		Vec<NonZeroU32>, [NonZeroU16; 3], VecDeque<NonZeroU8>, BinaryHeap<NonZeroU64>, Vec<NonZeroI128>, [NonZeroI8; 2], Option<NonZeroI32>, Vec<Option<NonZeroU8>>,
 		Marker, Vec<Marker>, VecDeque<Marker>, [Marker; 3], (Vec<Marker>, u8), Option<Vec<Marker>>, BTreeSet<Marker>, Vec<(Marker, Marker)>, Vec<[Marker; 2]>,
 		Vec<[u64; 128]>, Vec<[u8; 64]>, VecDeque<[u32; 256]>, Vec<(u128, [u64; 30])>, Option<Vec<[u16; 300]>>,
+		TransTagged, Box<TransTagged>, [TransTagged; 2], Rc<TransTagged>, Vec<Arc<TransTagged>>, TransTaggedAs, Box<TransTaggedAs>, [TransTaggedAs; 3],
+		TransSkipPayload, Box<TransSkipPayload>, [TransSkipPayload; 2], (Box<TransSkipPayload>, u8),
+		Vec<BTreeMap<u8, u8>>, (BTreeMap<u8, u8>, Vec<Box<u8>>), [BTreeSet<u8>; 3], Vec<BTreeSet<u16>>, (BTreeSet<u8>, BTreeSet<u8>, Box<u8>), Vec<(BTreeMap<u8, u8>, Box<u8>)>,
 		Result<u8, u64>, Result<(), u8>, Result<(), [u8; 32]>, Option<Result<u8, (u16, u16)>>, Result<u64, u8>, [Result<bool, u32>; 2],
 		Option<(u8, u16)>, Result<u32, (u8, u8)>, [(u8, bool); 3], Range<(u8, u8)>, Box<[u16; 4]>, Arc<(u8, u64)>, Rc<(u8, u64)>,
 	);
